@@ -408,6 +408,8 @@ package geojson
 //@   ensures Inv: ObjInv(result)
 //@   ensures Kind: isPolygonK(result)
 //@   ensures Poly: geometry.PolyInv(polyOf(result))
+//@   reveal polyKidOK
+//@   ensures Kid: polyKidOK(result)
 
 //@ func Feature.Empty
 //@   props C09 C11
@@ -631,7 +633,7 @@ package geojson
 //@   props C13
 //@   arith abstract
 //@   requires CircleInv(g)
-//@   dead cover.ret0   // `return g.object`: the field is never set, unreachable under the invariant
+//@   dead ret "return g.object$"#1   // `return g.object`: the field is never set, unreachable under the invariant
 //@   ensures result == circleObjS(g) && isPolygonK(result) && ObjInv(result)
 
 //@ func Circle.Polygon
